@@ -1,6 +1,10 @@
 (* Run.v — entry points evaluated by the correspondence check (Tie B).  Each takes nested
    lists of N (what the harness gave the implementation) and returns rows of N in the same
    canonical encoding the harness prints for the implementation. *)
+From MLA Require Import Limit.
+From MLAGen Require Src.
+(* executable entry points: the production value of BINCODE_MAX_DESERIALIZE (the same in both flavours), file-local *)
+#[local] Instance RUN_LIMIT : Limit := MLAGen.Src.BINCODE_MAX_DESERIALIZE_prod.
 From MLA Require Import Base Stream EncLayer Inst.
 Open Scope N_scope.
 
